@@ -69,7 +69,7 @@ GNAME = URIRef(E + "g1")
 ROUTES = ["triples", "so", "so_unique", "so_list", "value", "slice", "resource", "eval_direct", "interleave", "interleave_b",
           "ds_union", "ds_default", "ds_named", "agg", "in_agg", "in_ds", "sparql_const", "sparql_values",
           "sparql_tree", "sparql_init", "sparql_ds_union", "sparql_ds_default", "sparql_ds_graph", "sparql_ds_init",
-          "sparql_agg", "sparql_agg_values", "sparql_agg_init", "sparql_n3", "api"]
+          "sparql_agg", "sparql_agg_values", "sparql_agg_init", "sparql_n3", "api", "first_false"]
 FULL, DEFAULT, NAMED, AGG = 0, 1, 2, 3
 ROUTE_GRAPH = {"so_unique": FULL, "so_list": FULL, "value": FULL, "slice": FULL, "resource": FULL, "eval_direct": FULL,
                "interleave": FULL, "interleave_b": DEFAULT,
@@ -77,7 +77,7 @@ ROUTE_GRAPH = {"so_unique": FULL, "so_list": FULL, "value": FULL, "slice": FULL,
                "in_agg": AGG, "in_ds": FULL,
                "sparql_const": FULL, "sparql_values": FULL, "sparql_tree": FULL, "sparql_init": FULL,
                "sparql_ds_union": FULL, "sparql_ds_default": DEFAULT, "sparql_ds_graph": NAMED, "sparql_ds_init": FULL,
-               "sparql_agg": AGG, "sparql_agg_values": AGG, "sparql_agg_init": AGG, "sparql_n3": FULL, "api": FULL}
+               "sparql_agg": AGG, "sparql_agg_values": AGG, "sparql_agg_init": AGG, "sparql_n3": FULL, "api": FULL, "first_false": FULL}
 GNAME2 = URIRef(E + "g2")
 
 
@@ -856,7 +856,7 @@ def gen_case(rng, tier, i):
     if rng.random() < 0.15:
         o = s
     ends = [[None, None], [s, None], [None, o], [s, o]]
-    routes = ["triples", "so", "agg", "in_agg", "sparql_n3", "api"]
+    routes = ["triples", "so", "agg", "in_agg", "sparql_n3", "api", "first_false"]
     routes += rng.sample(["so_unique", "so_list", "value", "slice", "resource", "eval_direct", "interleave"],
                          2 if tier == "quick" else 4)
     if "interleave" in routes:
@@ -909,6 +909,8 @@ def _applicable(route, case, s, o, parts):
             return False
     if route == "sparql_tree" and "sparql_const" not in case["routes"]:
         return False
+    if route == "first_false" and case["path"][0] != "m":
+        return False        # MulPath.eval(graph, s, o, first=False): only a MulPath has the flag
     one_end = (s is None) != (o is None)
     if route in ("value", "resource", "so_list") and not one_end:
         return False        # Graph.value / Resource.objects|subjects / objects([s], …): exactly one end given
@@ -988,6 +990,8 @@ def _run_route(route, env, path_ast, s, o):
         if O is None:
             return back((S, ident(b)) for b in Resource(g, S).objects(P))
         return back((ident(a), O) for a in Resource(g, O).subjects(P))
+    if route == "first_false":
+        return back(P.eval(env["g"], S, O, first=False))
     if route == "eval_direct":
         g = env["g"]
         if isinstance(P, URIRef) or env["style"] == 1:
@@ -1283,6 +1287,11 @@ def run_impl(case):
             continue
         T = parts[ROUTE_GRAPH[route]]
         want = expected(ast, T, s, o)
+        ast_r = ast
+        if route == "first_false" and not (s is None and o is None):
+            # first=False skips the zero-length step on the given end(s): one or more steps (`?`: exactly one)
+            ast_r = ["m", "+", ast[2]] if ast[1] in "*+" else ast[2]
+            want = expected(ast_r, T, s, o)
         stats["route_" + route] = stats.get("route_" + route, 0) + 1
         stats["bind_%s%s" % ("s" if s is not None else "-", "o" if o is not None else "-")] = \
             stats.get("bind_%s%s" % ("s" if s is not None else "-", "o" if o is not None else "-"), 0) + 1
@@ -1319,7 +1328,7 @@ def run_impl(case):
             const_line[(s, o)] = obs[-1]
         gs = set(got)
         if gs != want:
-            viol.append(f"{relation_tag(ast, T, s, o, gs)}: route {route} path {ast} ends ({s},{o}) on {T}: missing "
+            viol.append(f"{relation_tag(ast_r, T, s, o, gs)}: route {route} path {ast} ends ({s},{o}) on {T}: missing "
                         f"{sorted(want - gs)} extra {sorted(gs - want)}")
         if closure and len(got) != len(gs):
             viol.append(f"dup: route {route} closure path {ast} ends ({s},{o}) on {T} yields duplicates: {sorted(got)}")
@@ -1406,6 +1415,10 @@ def model_lines(case):
         lines.append("graph " + " ".join("%d,%d,%d" % t for t in parts[FULL]))
         for s, o in case["ends"]:
             lines.append(f"api {_w(s)} {_w(o)} {toks}")
+    if "first_false" in case["routes"] and case["path"][0] == "m":
+        lines.append("graph " + " ".join("%d,%d,%d" % t for t in parts[FULL]))
+        for s, o in case["ends"]:
+            lines.append(f"evalf {_w(s)} {_w(o)} {toks}")
     return lines
 
 
@@ -1441,9 +1454,13 @@ def select_model_obs(case, out):
         pos.setdefault((s, o), bi)
     n3_base = 4 * (n + 1) + ((n + 1) if "sparql_tree" in case["routes"] and not has_empty_alt(case["path"]) else 0)
     api_base = n3_base + ((n + 3) if "sparql_n3" in case["routes"] else 0)
+    ff_base = api_base + ((n + 1) if "api" in case["routes"] else 0)
     for s, o, route in plan:
         if route == "api":
             res.append(out[api_base + 1 + pos[(s, o)]])
+            continue
+        if route == "first_false":
+            res.append(out[ff_base + 1 + pos[(s, o)]])
             continue
         if route == "sparql_tree":
             line = out[4 * (n + 1) + 1 + pos[(s, o)]]
